@@ -170,7 +170,7 @@ Theorem C01_code_expectation_is_the_specifications_continuation :
   (length ws = length rows /\
    forall i k, (i < length rows)%nat -> qget (nth i ws dflt_arr) [k] = nth k (nth i rows []) 0%Q) ->
   (forall idx, in_bounds (map (fun sg : string * grid => grid_size (snd sg)) (stoch_states m)) idx ->
-     node_value m p vnext e (node_labels (stoch_states m) idx) = VFin (qget ccvs idx)) ->
+     exists q, node_value m p vnext e (node_labels (stoch_states m) idx) = VFin q /\ (q == qget ccvs idx)%Q) ->
   forall u, eval_fun (depth m) m p e "utility" = Some u ->
   exists v, objective m p false vnext e = VFin v /\
             (v == u + beta p *
@@ -180,3 +180,71 @@ Theorem C01_code_expectation_is_the_specifications_continuation :
                         (indices (map (fun sg : string * grid => grid_size (snd sg)) (stoch_states m)))))%Q.
 Proof. intros m p e vnext rows ccvs ws H1 H2 H3 u Hu. exact (spec_objective_from_code_sum m p e vnext rows H1 ccvs ws H2 H3 u Hu). Qed.
 Print Assumptions C01_code_expectation_is_the_specifications_continuation.
+
+(* ---- ONE BELLMAN STEP OF THE CODE IS ONE BELLMAN STEP OF THE SPECIFICATION ----------------------- *)
+From LCM Require Import Model.FunctionRepresentation Gen.ModelFunctions Proofs.C14_Refine Proofs.C14_OnLayout Proofs.C01_Compose.
+(* Models without filter-restricted states.  At a (state, choice) point e of a period that is not the  *)
+(* last, let the concatenated model functions hand to the regenerated u_and_f what the specification     *)
+(* computes at e: utility u (and some feasibility value), for every state the deterministic next value    *)
+(* or, for a stochastic state, all its labels (next_states_kw), for every stochastic state the row the    *)
+(* regenerated weight function reads (weights_kw, = the specification's row by C03); let the scalar       *)
+(* value function be the function representation on the documented layout of the next period's finite     *)
+(* table F (svf, by C14/C05).  Then the value u_and_f returns -- computed by product-mapping the value    *)
+(* function over the stochastic next states, multiplying by the product-mapped weights, summing and       *)
+(* discounting once -- IS the specification's objective utility + beta * E[V_{t+1}] at e.                 *)
+Theorem C01_one_bellman_step_of_the_code_is_the_specifications :
+  forall (m : model) (p : params) (e : env) (F : list nat -> Q) (det : string -> Q) (rows : list (list Q))
+         (u : Q) (FE : Type) (fe : FE) (t : nat) (kwargs : list (string * qarr)),
+  NoDup (map fst (states m)) -> grids_valid (states m) ->
+  eval_fun (depth m) m p e "utility" = Some u ->
+  (forall sg, In sg (states m) -> is_stochastic m (fst sg) = false -> next_det m p e (fst sg) = Some (det (fst sg))) ->
+  omap (fun sg : string * grid => weight_row m p e (fst sg)) (stoch_states m) = Some rows ->
+  Forall2 (fun (sg : string * grid) (row : list Q) => length row = grid_size (snd sg)) (stoch_states m) rows ->
+  (forall idx, in_bounds (map (fun sg : string * grid => grid_size (snd sg)) (stoch_states m)) idx ->
+     exists q, qread (states m) F (node_vals (states m) (is_stochastic m) det idx) = Some q) ->
+  exists v, objective m p false (fun idx => VFin (F idx)) e = VFin v /\
+            (fst (code_value m p F det rows u FE fe t kwargs) == v)%Q /\
+            snd (code_value m p F det rows u FE fe t kwargs) = fe.
+Proof.
+  intros m p e F det rows u FE fe t kwargs H1 H2 H3 H4 H5 H6 H7.
+  exact (one_bellman_step_of_the_code_is_the_specifications m p e F det rows u FE fe t kwargs H1 H2 H3 H4 H5 H6 H7).
+Qed.
+Print Assumptions C01_one_bellman_step_of_the_code_is_the_specifications.
+
+(* a model with a stochastic and a continuous state that meets the seven hypotheses, and both sides computed *)
+Definition step_model : model :=
+  mkModel 3 [("h", GDisc 2); ("w", GLin 0 2 3)] [("c", GLin 0 2 3)]
+    [mkUfun "utility" ["c"; "w"; "h"] (EAdd (EVar "c") (EMul (EVar "w") (EVar "h"))) false;
+     mkUfun "next_w" ["w"; "c"] (ESub (EVar "w") (EVar "c")) false;
+     mkUfun "next_h" ["h"] (EConst 0) true;
+     mkUfun "budget_constraint" ["c"; "w"] (ELe (EVar "c") (EVar "w")) false].
+Definition step_params : params := mkParams (1 # 2) [] [("h", mkArr [2; 2]%nat [1 # 4; 3 # 4; 1 # 2; 1 # 2])].
+Definition step_env : env := [("h", 0); ("w", 1); ("c", 1 # 2); ("_period", 0)]%Q.
+Definition step_table (idx : list nat) : Q := match idx with [a; b] => Qofnat a + 2 * Qofnat b | _ => 0 end.
+Definition step_det (s : string) : Q := if String.eqb s "w" then 1 # 2 else 0.
+Example C01_bellman_step_nonvacuous :
+  NoDup (map fst (states step_model)) /\ grids_valid (states step_model) /\
+  eval_fun (depth step_model) step_model step_params step_env "utility" = Some (1 # 2) /\
+  (forall sg, In sg (states step_model) -> is_stochastic step_model (fst sg) = false ->
+     next_det step_model step_params step_env (fst sg) = Some (step_det (fst sg))) /\
+  omap (fun sg : string * grid => weight_row step_model step_params step_env (fst sg)) (stoch_states step_model)
+    = Some [[1 # 4; 3 # 4]] /\
+  Forall2 (fun (sg : string * grid) (row : list Q) => length row = grid_size (snd sg)) (stoch_states step_model) [[1 # 4; 3 # 4]] /\
+  (forall idx, in_bounds (map (fun sg : string * grid => grid_size (snd sg)) (stoch_states step_model)) idx ->
+     exists q, qread (states step_model) step_table (node_vals (states step_model) (is_stochastic step_model) step_det idx) = Some q) /\
+  objective step_model step_params false (fun idx => VFin (step_table idx)) step_env = VFin (22528 # 16384) /\
+  Qred (fst (code_value step_model step_params step_table step_det [[1 # 4; 3 # 4]] (1 # 2) unit tt 0 [])) = 11 # 8.
+Proof.
+  split; [repeat constructor; simpl; intuition discriminate|].
+  split; [repeat constructor; vm_compute; reflexivity|].
+  split; [vm_compute; reflexivity|].
+  split.
+  { intros sg Hin Hst. simpl in Hin. destruct Hin as [<-|[<-|[]]]; [vm_compute in Hst; discriminate|vm_compute; reflexivity]. }
+  split; [vm_compute; reflexivity|].
+  split; [repeat constructor|].
+  split.
+  { intros idx Hb. change (in_bounds [2%nat] idx) in Hb. destruct idx as [|k idx']; [contradiction|]. destruct Hb as [Hk Hb'].
+    destruct idx'; [|contradiction].
+    destruct k as [|[|k]]; [eexists; vm_compute; reflexivity|eexists; vm_compute; reflexivity|exfalso; lia]. }
+  split; vm_compute; reflexivity.
+Qed.
